@@ -23,6 +23,10 @@ CONSTANTS
   JoinWaitsExit = TRUE
   RunErrsOnNonZero = TRUE
   BlockOnExact = TRUE
+  SelfSend = FALSE
+  SelfSendViaChannel = TRUE
+  NegCodeIsErr = TRUE
+  CtrlBatch = 0
 SPECIFICATION FairSpec
 PROPERTIES L_StopLeadsToRunReturn L_MustStopExit
 INVARIANTS TypeOK
